@@ -41,7 +41,13 @@ func isNilLike(v reflect.Value) bool {
 	}
 }
 
-func floatEq(a, b float64) bool { return a == b || (a != a && b != b) }
+// floatEq: the same value including the sign of zero (any NaN equals any NaN: the payload is not carried by the text form)
+func floatEq(a, b float64) bool {
+	if a != a || b != b {
+		return a != a && b != b
+	}
+	return math.Float64bits(a) == math.Float64bits(b)
+}
 
 func (c *eqctx) eq(a, b reflect.Value, path string) string {
 	t := a.Type()
@@ -301,7 +307,7 @@ func (c *eqctx) loose(a, b reflect.Value, path string) string {
 		return ""
 	case reflect.Complex64, reflect.Complex128:
 		x := a.Complex()
-		if imag(x) == 0 {
+		if imag(x) == 0 && !math.Signbit(imag(x)) { // +0 imaginary part: written as the real part alone
 			if b.Kind() == reflect.Float64 && (floatEq(b.Float(), real(x)) ||
 				(a.Kind() == reflect.Complex64 && floatEq(float64(float32(b.Float())), real(x)))) {
 				return ""
